@@ -415,6 +415,10 @@ pub fn run(ctx: &Ctx) -> (Stats, Spec) {
         });
         crate::report::merge_all(parts)
     });
+    let mut st = st;
+    if ctx.tier == crate::report::Tier::Thorough {
+        miri_tripwire(ctx, &mut st, 150);
+    }
     let spec = Spec {
         rule: "random histories of 100..400 [quick] / 100..3000 [thorough] public operations (var, const, 7 binary connectives, ite, exists/all/exists_impl, aln/amn/exn, count_*, fp with a closure calling back into the environment, model, infer, retain, clean, order-respecting mk_choice) on one BDDEnv<usize> over 5-6 sparse labels, operands drawn from all earlier handles (old ones preferred); second family: 2-13 formula evaluations (incl. re-evaluations) sharing one BDDEnv<NamedSymbol> under a common random ordering. distinct = hash of the operation list; non-trivial = >= 30% of operands are handles older than 20 steps and the table reached >= 50 nodes (shared-env: >= 4 evaluations, >= 20 nodes).".into(),
         assumptions: vec![
